@@ -291,6 +291,10 @@ pub fn mon_c10(f: &Flow, m: &mut Mon) {
     for c in f.checks.iter().filter(|c| judged(c)) {
         let lab = outcome_label(c);
         let e = &c.exp;
+        if e.reports_buildability_undecided {
+            m.hit("c10-report-buildability-undecided-skipped");
+            continue;
+        }
         // reports observed: event requests, plus (optionally) requests with an empty app list
         let empties: Vec<&ReqView> = c.others.iter().filter(|r| app_count(&r.json) == 0).collect();
         let stray_other = c.others.len() - empties.len();
